@@ -269,3 +269,41 @@ def _m_backprop(job, rec, k):
     # NumPy / JAX / Torch wordings of "a 0-d value inside concatenate([...], 0)"
     return (kw.get('inplace_vectorfield') is False and rec.get('kind') == 'emitted-function-raises'
             and ('zero-dimensional' in w or 'number of dimensions' in w or 'numbers of dimensions' in w))
+
+
+def _mixed_spread_plain_groups(spec):
+    """source variables of structurally identical node groups whose outgoing edges mix spread and plain delays"""
+    types = {}
+    for n, ns in spec.nodes.items():
+        types.setdefault(tuple(ns.ops), []).append(n)
+    group_of = {n: t for t, ns in types.items() for n in ns}
+    kinds = {}
+    for e in spec.edges:
+        sn, so, sv = e.src.rsplit('/', 2)
+        k = kinds.setdefault((group_of[sn], so, sv), set())
+        if e.spread is not None and e.spread != 0:
+            k.add('spread')
+        elif e.delay is not None and e.delay != 0:
+            k.add('plain')
+    return [g for g, k in kinds.items() if {'spread', 'plain'} <= k]
+
+
+@matcher('mixed-spread-and-plain-delay-vectorized')
+def _m_mixed_delay(job, rec, k):
+    spec = job.get('spec')
+    if spec is None or not job.get('vectorize', True) or not _mixed_spread_plain_groups(spec):
+        return False
+    if rec.get('kind') == 'compile-raises':
+        return "KeyError: 'spread'" in rec.get('what', '')
+    if rec.get('kind') == 'unsupported-not-refused':
+        return True
+    if rec.get('kind') != 'vector-field':
+        return False
+    # the failing variable must be the target of an edge that leaves such a mixed group
+    groups = _mixed_spread_plain_groups(spec)
+    tn = rec.get('var', '').rsplit('/', 2)[0]
+    for e in spec.edges:
+        sn, so, sv = e.src.rsplit('/', 2)
+        if e.tgt.rsplit('/', 2)[0] == tn and any(so == g[1] and sv == g[2] and tuple(spec.nodes[sn].ops) == g[0] for g in groups):
+            return True
+    return False
